@@ -110,7 +110,10 @@ class HistGen:
     def op_replacelast(self, b):
         if not self.live[b]:
             return self.op_insert(b)
-        self.ops.append(["replacelast", b, self.carried()])
+        op = ["replacelast", b, self.carried()]
+        if self.rng.random() < 0.3:
+            op.append("blind")  # not preceded by a limit-1 read (whatever the client read earlier may be long out of date)
+        self.ops.append(op)
 
     def op_delete(self, b):
         if self.live[b] and self.rng.random() < 0.7:
